@@ -239,7 +239,8 @@ fn rd_val(rd: &rustybgp_packet::rd::RouteDistinguisher) -> Val {
 }
 
 // nlri: [0,mask,addr4] [1,mask,addr16] [2,labels,mask,addr4] [3,labels,mask,addr16]
-//       [4,labels,rd8,mask,addr4] [5,labels,rd8,mask,addr16] [9] (family not modelled)
+//       [4,labels,rd8,mask,addr4] [5,labels,rd8,mask,addr16] [10,evpn encode()] [11,rtc encode()]
+//       [12,sr-policy encode()] [13,kind,rd,components] (flowspec) [9] (family not modelled)
 fn nlri_val(n: &Nlri) -> Val {
     match n {
         Nlri::V4(p) => l(vec![Val::n(0u8), Val::n(p.mask), Val::from_bytes(&p.addr.octets())]),
@@ -270,7 +271,98 @@ fn nlri_val(n: &Nlri) -> Val {
             Val::n(x.prefix.mask),
             Val::from_bytes(&x.prefix.addr.octets()),
         ]),
+        Nlri::Evpn(x) => {
+            let mut b = Vec::new();
+            x.encode(&mut b);
+            l(vec![Val::n(10u8), Val::from_bytes(&b)])
+        }
+        Nlri::Rtc(x) => {
+            let mut b = Vec::new();
+            x.encode(&mut b);
+            l(vec![Val::n(11u8), Val::from_bytes(&b)])
+        }
+        Nlri::SrPolicy(x) => {
+            let mut b = Vec::new();
+            x.encode(&mut b);
+            l(vec![Val::n(12u8), Val::from_bytes(&b)])
+        }
+        Nlri::FlowspecV4(x) => l(vec![
+            Val::n(13u8),
+            Val::n(0u8),
+            l(vec![]),
+            l(x.components.iter().map(fs4_val).collect()),
+        ]),
+        Nlri::FlowspecV6(x) => l(vec![
+            Val::n(13u8),
+            Val::n(1u8),
+            l(vec![]),
+            l(x.components.iter().map(fs6_val).collect()),
+        ]),
+        Nlri::FlowspecVpnV4(x) => l(vec![
+            Val::n(13u8),
+            Val::n(2u8),
+            rd_val(&x.rd),
+            l(x.components.iter().map(fs4_val).collect()),
+        ]),
+        Nlri::FlowspecVpnV6(x) => l(vec![
+            Val::n(13u8),
+            Val::n(3u8),
+            rd_val(&x.rd),
+            l(x.components.iter().map(fs6_val).collect()),
+        ]),
         _ => l(vec![Val::n(9u8)]),
+    }
+}
+
+// flowspec component: [type, 0, bits, offset, addr] for the two prefix types, [type, 1, [[op bits, value], ...]] otherwise
+fn ops_val(t: u8, ops: &[rustybgp_packet::flowspec::Op]) -> Val {
+    l(vec![
+        Val::n(t),
+        Val::n(1u8),
+        l(ops.iter().map(|o| l(vec![Val::n(o.bits), Val::n(o.value)])).collect()),
+    ])
+}
+
+fn fs4_val(c: &rustybgp_packet::flowspec::FlowspecV4Component) -> Val {
+    use rustybgp_packet::flowspec::FlowspecV4Component as C;
+    let p = |t: u8, n: &rustybgp_packet::bgp::Ipv4Net| {
+        l(vec![Val::n(t), Val::n(0u8), Val::n(n.mask), Val::n(0u8), Val::from_bytes(&n.addr.octets())])
+    };
+    match c {
+        C::DstPrefix(n) => p(1, n),
+        C::SrcPrefix(n) => p(2, n),
+        C::Protocol(o) => ops_val(3, o),
+        C::Port(o) => ops_val(4, o),
+        C::DstPort(o) => ops_val(5, o),
+        C::SrcPort(o) => ops_val(6, o),
+        C::IcmpType(o) => ops_val(7, o),
+        C::IcmpCode(o) => ops_val(8, o),
+        C::TcpFlags(o) => ops_val(9, o),
+        C::PacketLen(o) => ops_val(10, o),
+        C::Dscp(o) => ops_val(11, o),
+        C::Fragment(o) => ops_val(12, o),
+    }
+}
+
+fn fs6_val(c: &rustybgp_packet::flowspec::FlowspecV6Component) -> Val {
+    use rustybgp_packet::flowspec::FlowspecV6Component as C;
+    let p = |t: u8, n: &rustybgp_packet::bgp::Ipv6Net, off: u8| {
+        l(vec![Val::n(t), Val::n(0u8), Val::n(n.mask), Val::n(off), Val::from_bytes(&n.addr.octets())])
+    };
+    match c {
+        C::DstPrefix { prefix, offset } => p(1, prefix, *offset),
+        C::SrcPrefix { prefix, offset } => p(2, prefix, *offset),
+        C::NextHeader(o) => ops_val(3, o),
+        C::Port(o) => ops_val(4, o),
+        C::DstPort(o) => ops_val(5, o),
+        C::SrcPort(o) => ops_val(6, o),
+        C::IcmpType(o) => ops_val(7, o),
+        C::IcmpCode(o) => ops_val(8, o),
+        C::TcpFlags(o) => ops_val(9, o),
+        C::PacketLen(o) => ops_val(10, o),
+        C::Dscp(o) => ops_val(11, o),
+        C::Fragment(o) => ops_val(12, o),
+        C::FlowLabel(o) => ops_val(13, o),
     }
 }
 
